@@ -19,8 +19,11 @@ RULE = ("trees: (a) every forest shape with <=3 (quick) / <=4 (thorough) element
         "{plural, singular} x limits {None,0,1,2,50} x queries drawn from a grammar over name / attrs / kwargs / string "
         "criteria of every kind (str, non-str object, True, False, None, compiled pattern, function, list incl. None / "
         "nested / empty items, class_ and deprecated text= spellings, non-dict attrs) — all combinations for the fixed "
-        "core query list on small trees, sampled otherwise; tag(...) and tag.name shorthands; CSS selectors (type, "
-        ".class, #id, [attr], [attr=v], descendant and child combinators) against their find_all expressions. "
+        "core query list on small trees, sampled otherwise; tag(...) and tag.name shorthands; every public spelling of "
+        "every family (the 14 documented names and the 15 camelCase / fetch* aliases) from every element, judged by the "
+        "oracle on the documented axis; CSS selectors (type, .class, #id, [attr], [attr=v], compounds, descendant and child "
+        "combinators, lists) against their find_all composition through every CSS entry point (Tag.select, Tag.select_one, "
+        "tag.css.select / select_one / iselect) with limits 0, 1, 2 (limit = a prefix). "
         "Functions are seeded random predicates over elements / strings whose every call is logged. Queries outside the "
         "oracle's domain (same attribute constrained twice, falsy non-dict attrs, odd prefixes) are still run on model and "
         "implementation, but a difference there is recorded in the notes, not a verdict; list criteria without usable items "
@@ -998,6 +1001,78 @@ def shorthand_corpus():
     return Case([soup], {"markup": "<b><a>t1</a></b> + new tags Tag xTag x _a content Tags ag xTagTag appended to <b>"})
 
 
+# ----------------------------------------------------------------------------------- every public entry point
+# The documented names of the seven families and every other public spelling of them (the camelCase / fetch*
+# names kept for BS3 / 4.0 code).  The table is the documentation's, not read from the implementation:
+# entry point -> (axis, singular).
+ENTRY_POINTS = {
+    "find_all": (0, False), "findAll": (0, False), "findChildren": (0, False),
+    "find": (0, True), "findChild": (0, True),
+    "find_all_next": (2, False), "findAllNext": (2, False),
+    "find_next": (2, True), "findNext": (2, True),
+    "find_all_previous": (3, False), "findAllPrevious": (3, False), "fetchAllPrevious": (3, False),
+    "find_previous": (3, True), "findPrevious": (3, True),
+    "find_next_siblings": (4, False), "findNextSiblings": (4, False), "fetchNextSiblings": (4, False),
+    "find_next_sibling": (4, True), "findNextSibling": (4, True),
+    "find_previous_siblings": (5, False), "findPreviousSiblings": (5, False), "fetchPreviousSiblings": (5, False),
+    "find_previous_sibling": (5, True), "findPreviousSibling": (5, True),
+    "find_parents": (6, False), "findParents": (6, False), "fetchParents": (6, False),
+    "find_parent": (6, True), "findParent": (6, True),
+}
+
+
+def entry_queries():
+    return [mkq(), mkq(name=one(S("a"))), mkq(name=one(S("b"))), mkq(name=one(("b", True))),
+            mkq(kwargs=[("class_", one(S("x")))]), mkq(kwargs=[("id", one(("b", True)))]),
+            mkq(string=one(("b", True))), mkq(string=one(S("t1"))), mkq(name=lst(S("a"), S("b")), limit=1),
+            mkq(name=one(S("a")), limit=2), mkq(name=one(("p", 4)))]
+
+
+def entry_point_block(ctx, case, queries=None):
+    """Every public spelling of every family, from every element: the result must be the documented one of ITS axis
+    (independent oracle) — so an alias bound to the wrong method, axis or arity is a violation."""
+    queries = queries or entry_queries()
+    wf = case.names_wf()
+    for start, o in enumerate(case.forest.objs):
+        axes = {}
+        for name, (axis, singular) in ENTRY_POINTS.items():
+            if axis < 2 and not isinstance(o, Tag):
+                continue
+            if axis not in axes:
+                axes[axis] = o_axis(o, axis)
+            for q in queries:
+                if singular and q["limit"] is not None:
+                    continue
+                qq = dict(q, string=NONE) if axis == 6 else q
+                funs = Funs(case.forest)
+                kw = call_args(qq, funs)
+                if not singular and q["limit"] is not None:
+                    kw["limit"] = q["limit"]
+                ctx.case((case_key(case), start, "entry", name, repr(q)), nontrivial=bool(axes[axis]))
+                ctx.count("entry_point_cases")
+                cdesc = {"tree": case.describe(), "start": start, "entry_point": name, "query": q,
+                         "documented_as": (SINGULAR if singular else PLURAL)[axis]}
+                try:
+                    with warnings.catch_warnings():
+                        warnings.simplefilter("ignore")
+                        r = getattr(o, name)(**kw)
+                except Exception as e:
+                    ctx.fail(cdesc, "public search entry point raised an exception", "EXC:" + type(e).__name__, "a result", tag="entry-point")
+                    continue
+                if not wf or unusable_crits(qq):
+                    continue
+                exp = [x for x in axes[axis] if o_matches(qq, x, case.forest)]
+                if singular:
+                    got = None if r is None else case.forest.oid(r)
+                    want = case.forest.oid(exp[0]) if exp else None
+                else:
+                    got = [case.forest.oid(x) for x in r]
+                    want = [case.forest.oid(x) for x in (exp[:q["limit"]] if q["limit"] else exp)]
+                if got != want:
+                    ctx.fail(cdesc, "%s() does not return the documented result of its axis (%s)" % (name, AXES[axis]), got, want,
+                             tag="entry-point")
+
+
 # selectors of the common subset, structured as in Spec/CssSpec.v:
 #   simple   ("c", cls) | ("i", id) | ("k", key) | ("e", key, value)
 #   compound (type or None, [simples])
@@ -1118,6 +1193,31 @@ def css_domain(case):
     return True
 
 
+def css_entry_points(ctx, case, start, o, text, eid):
+    """Every CSS entry point of a tag, with and without a limit, against the find_all composition [eid]
+    (limit=k: the first k; 0: no limit): Tag.select / Tag.select_one, tag.css.select / select_one / iselect."""
+    oid = case.forest.oid
+    calls = [("tag.css.select(s)", lambda: [oid(x) for x in o.css.select(text)], eid),
+             ("list(tag.css.iselect(s))", lambda: [oid(x) for x in o.css.iselect(text)], eid),
+             ("tag.css.select_one(s)", lambda: (lambda r: None if r is None else oid(r))(o.css.select_one(text)), eid[0] if eid else None),
+             ("tag.select(s, limit=0)", lambda: [oid(x) for x in o.select(text, limit=0)], eid)]
+    for k in (1, 2):
+        if len(eid) + 1 < k:
+            continue
+        calls.append(("tag.select(s, limit=%d)" % k, lambda k=k: [oid(x) for x in o.select(text, limit=k)], eid[:k]))
+        calls.append(("tag.css.select(s, limit=%d)" % k, lambda k=k: [oid(x) for x in o.css.select(text, limit=k)], eid[:k]))
+        calls.append(("list(tag.css.iselect(s, limit=%d))" % k, lambda k=k: [oid(x) for x in o.css.iselect(text, limit=k)], eid[:k]))
+    for label, fn, want in calls:
+        ctx.count("css_entry_point_cases")
+        try:
+            got = fn()
+        except Exception as e:
+            got = "EXC:" + type(e).__name__
+        if got != want:
+            ctx.fail({"tree": case.describe(), "start": start, "selector": text, "call": label},
+                     "%s disagrees with the find_all composition (limit = a prefix)" % label, got, want, tag="css")
+
+
 _PENDING_CSS = []
 
 
@@ -1150,6 +1250,7 @@ def css_block(ctx, case):
             if (None if one_ is None else case.forest.oid(one_)) != (eid[0] if eid else None):
                 ctx.fail({"tree": case.describe(), "start": start, "selector": text}, "select_one is not the first of select",
                          None if one_ is None else case.forest.oid(one_), eid[0] if eid else None, tag="css")
+            css_entry_points(ctx, case, start, o, text, eid)
             items.append([start, enc_selector(sel)])
             recs.append((start, text, gid))
     if ctx.build.model_ok and items:
@@ -1246,6 +1347,8 @@ def run_all(ctx):
         for case in small[::2]:
             shorthand_block(ctx, case)
             css_block(ctx, case)
+        for case in small:
+            entry_point_block(ctx, case)
         ndocs = 400 if ctx.thorough else 60
         for i in range(ndocs):
             soup, mk = parsed_tree(rng, rng.choice([6, 10, 16]))
@@ -1254,6 +1357,8 @@ def run_all(ctx):
             if i % 4 == 0:
                 css_block(ctx, case)
                 shorthand_block(ctx, case)
+            if i % 6 == 0:
+                entry_point_block(ctx, case, rng.sample(entry_queries(), 4))
             if i % 5 == 0:
                 core_block(ctx, [case], [None, 2], rng.sample(core, 12) + rng.sample(edge, 3))
             if i == 1:
@@ -1265,6 +1370,8 @@ def run_all(ctx):
             if i % 5 == 1:
                 core_block(ctx, [ecase], [None, 1], rng.sample(core, 10) + rng.sample(edge, 3))
                 css_block(ctx, ecase)
+            if i % 6 == 3:
+                entry_point_block(ctx, ecase, rng.sample(entry_queries(), 4))
             if i == 2:
                 ctx.sample({"edited_tree": ecase.describe()["elements"][:8], "edits": elog})
             if too_many(ctx):
@@ -1339,9 +1446,36 @@ def replay(ctx, data):
     c = rebuild(case["tree"])
     o = c.forest.objs[case["start"]]
     if "selector" in case:
-        got = [c.forest.oid(x) for x in o.select(case["selector"])]
-        print("re-run: select(%r) ->" % case["selector"], got)
+        text, call = case["selector"], case.get("call", "tag.select(s)")
+        k = int(call.split("limit=")[1].rstrip(")")) if "limit=" in call else 0
+        oid = c.forest.oid
+        if "iselect" in call:
+            got = [oid(x) for x in o.css.iselect(text, limit=k)]
+        elif "select_one" in call:
+            r = o.css.select_one(text)
+            got = None if r is None else oid(r)
+        elif "css.select" in call:
+            got = [oid(x) for x in o.css.select(text, limit=k)]
+        else:
+            got = [oid(x) for x in o.select(text, limit=k)]
+        print("re-run: %s with s = %r ->" % (call, text), got)
         return 0 if got == f.get("expected") else 1
+    if "entry_point" in case:
+        name = case["entry_point"]
+        axis, singular = ENTRY_POINTS[name]
+        q = norm_query(case["query"])
+        qq = dict(q, string=NONE) if axis == 6 else q
+        kw = call_args(qq, Funs(c.forest))
+        if not singular and q["limit"] is not None:
+            kw["limit"] = q["limit"]
+        with warnings.catch_warnings():
+            warnings.simplefilter("ignore")
+            r = getattr(o, name)(**kw)
+        got = (None if r is None else c.forest.oid(r)) if singular else [c.forest.oid(x) for x in r]
+        exp = [c.forest.oid(x) for x in o_find_all(dict(qq, limit=None if singular else q["limit"]), o, axis, c.forest)]
+        exp = (exp[0] if exp else None) if singular else exp
+        print("re-run: %s() [documented as %s] -> implementation %r | oracle %r" % (name, case.get("documented_as"), got, exp))
+        return 0 if got == exp else 1
     if "attribute" in case:
         with warnings.catch_warnings():
             warnings.simplefilter("ignore")
